@@ -222,13 +222,14 @@ def run(ctx):
         cov["configs"].append({"config": "repository tests", "note": "no trace recorded: " + tail[-200:]})
 
     # ---------------- B. the node inside a network: attack library + random walks, FilePV signing ----
-    for (tag, powers, bi) in ((("eq0", [1, 1, 1, 1], 0),) if quick else (("eq0", [1, 1, 1, 1], 0), ("eq3", [1, 1, 1, 1], 3), ("w2", [2, 2, 1, 1], 2))):
+    # w2: total power divisible by three (a quorum of exactly 2/3 is possible)
+    for (tag, powers, bi) in ((("eq0", [1, 1, 1, 1], 0), ("w2", [2, 2, 1, 1], 2)) if quick else (("eq0", [1, 1, 1, 1], 0), ("eq3", [1, 1, 1, 1], 3), ("w2", [2, 2, 1, 1], 2))):
         info3 = cc.run_driver(ctx, binp, {"mode": "info", "powers": powers, "byz": [], "maxround": 4}, "info" + tag)
         byz3 = [info3["names"][bi]]
         attacks = [a for a in load_attacks() if a["powers"] == powers and a["byz"] == byz3 and not a.get("restart")]
         scheds = [{"id": 100000 + k, "steps": a["steps"]} for k, a in enumerate(attacks)]
         inp = {"mode": "replay", "powers": powers, "byz": byz3, "maxround": 3, "filepv": True, "scheds": scheds,
-               "random": 25 if quick else 400, "randlen": 150}
+               "random": 16 if quick else 400, "randlen": 150}
         rows, stats = cc.run_driver(ctx, binp, inp, tag)
         v = cc.validate(ctx, rows, info3, byz3, 3, tag, dedupe=True)
         account(v, rows, "3+1 " + tag)
